@@ -1,4 +1,4 @@
-CONSTANTS Profiles = {"i64.small", "f64.zeros", "i64.big53"}
+CONSTANTS Profiles = {"i64.small", "f64.zeros"}
           Family = "pair"
           MaxRows = 2
           Impl = "asbuilt"
